@@ -204,6 +204,9 @@ Parsed(o) == pd[o] # "none"
 GaveUp(o) == Parsed(o) /\ F[Src(o)].parse \in {"fatal", "crash"}            \* the parser gave up on o's docstring
 \* every entry point ends in a result
 AlwaysResult == \A x \in Results : x.r # "escaped"
+\* ... within the time limit (a call the harness had to interrupt is logged with r = "timeout"; the loop behind the only
+\* way to hang that is known - section anchors - has its own module, Slug.tla)
+Terminates == \A x \in Results : x.r # "timeout"
 \* when the parser gives up, or the renderer fails, the body shown is the complete text as plain text
 \* ("lost": the body was rendered from a document whose construction had failed, nothing was reported)
 FallbackComplete == \A x \in Results : x.op = "docstring" =>
